@@ -110,6 +110,13 @@ def gen_history(rng, defs, n_steps, mode):
             alive[objid] = True
             objid += 1
             steps.append(("new", s))
+            if mode == "c14" and rng.random() < 0.7:
+                # a random configuration right away, so that unusual flag combinations meet long histories
+                for w, v in (("cost", rng.randrange(2)), ("rec", rng.randrange(2)), ("one", rng.randrange(2)),
+                             ("la", rng.choice([0, 1, 2]))):
+                    if rng.random() < 0.6:
+                        steps.append(("set", s, w, v, slots[s].settings[w]))
+                        slots[s].settings[w] = v
         elif op == "set":
             s = rng.choice(list(slots))
             w = rng.choice(PARAMS)
